@@ -136,6 +136,8 @@ func runC01(c *Ctx) {
 
 	r9 := c.Rule("R9", "positional pairing of the rollback store infos with the backends' created flags (shared with C06.R5): the count reversal of a failed commit is applied to the right stores", 3)
 	positionalPairingRule(c, r9)
+	r10 := c.Rule("R10", "when a multi-store count update fails half-way, what StoreRepository.Update undoes on disk it also undoes in the cache: every successful storeinfo write in Update and in its undo closure is followed by a cache refresh with the very record that was written (shared with C20.R4)", 6)
+	updateCacheCoherenceRule(c, r10)
 	_ = ast.Inspect
 }
 
